@@ -666,7 +666,7 @@ impl Prop for CliRejects {
             };
             proc_metrics(&mut m, &out);
             h.u64(out.status.unwrap_or(-1) as u64);
-            h.u64(hash_bytes(&out.stdout));
+            h.u64(hash_output(&out.stdout));
             let counter: &'static str = match kind.as_str() {
                 "truncate" => "fault_file_truncated",
                 "empty" => "fault_file_empty",
